@@ -1129,7 +1129,10 @@ async def conv_call(rt, i, proto):
                 if not m.ss:
                     obs["received"] = []
             except asyncio.CancelledError:
-                raise
+                if asyncio.current_task().cancelling():
+                    raise        # the watchdog below cancelled this call
+                # nobody cancelled this call: a CancelledError here replaced the handler's outcome on its way to the caller
+                obs["end"] = ("exc", "CancelledError surfaced to the caller although nobody cancelled the call")
             except Exception as e:  # noqa
                 obs["end"] = ("exc", f"{type(e).__name__}: {e}")
                 if not m.ss:
